@@ -21,7 +21,7 @@ pub fn candidates(prop: &str) -> Vec<Value> {
             }}}
         }
         "C15" => {
-            for g in ["G1", "G2"] { for kind in ["point_bytes", "commitment_scalars", "containers", "schemes", "serde_forms"] {
+            for g in ["G1", "G2"] { for kind in ["point_bytes", "commitment_scalars", "containers", "container_forms", "schemes", "serde_forms"] {
                 v.push(json!({"call": "roundtrip", "group": g, "kind": kind}));
             }}
         }
@@ -365,6 +365,50 @@ fn roundtrip<C: BlsSignatureImpl + PartialEq + Copy + Send + Sync + 'static>(c: 
                 let p = sh.public_key().unwrap(); let v: Vec<u8> = Vec::from(&p);
                 match PublicKeyShare::<C>::try_from(v.as_slice()) { Ok(x) if x == p => {}, _ => return Some("PublicKeyShare bytes do not round-trip".into()) }
             }
+            None
+        }
+        "container_forms" => {
+            // the four macro-generated container conversions agree with the slice / by-reference ones, for the
+            // valid encoding, every truncation of it, and over-long inputs (up to 200 bytes beyond)
+            macro_rules! forms { ($t:ty, $name:expr, $enc:expr) => {{
+                let enc: Vec<u8> = $enc;
+                let mut inputs: Vec<Vec<u8>> = (0..=enc.len()).map(|l| enc[..l].to_vec()).collect();
+                for extra in [1usize, 48, 96, 200] { let mut e = enc.clone(); e.extend(std::iter::repeat(0x5au8).take(extra)); inputs.push(e); }
+                for b in inputs {
+                    let base = <$t>::try_from(b.as_slice()).ok().map(|x| Vec::<u8>::from(&x));
+                    let a = <$t>::try_from(b.clone()).ok().map(|x| Vec::<u8>::from(&x));
+                    let r = <$t>::try_from(&b).ok().map(|x| Vec::<u8>::from(&x));
+                    let x = <$t>::try_from(b.clone().into_boxed_slice()).ok().map(|x| Vec::<u8>::from(&x));
+                    if a != base || r != base || x != base { return Some(format!("{}: the Vec / &Vec / Box<[u8]> conversions disagree with the slice conversion on an input of {} bytes (valid encoding: {} bytes)", $name, b.len(), enc.len())); }
+                }
+                if let Ok(v) = <$t>::try_from(enc.as_slice()) { let by_ref = Vec::<u8>::from(&v); let owned: Vec<u8> = v.into(); if owned != by_ref { return Some(format!("{}: From<T> for Vec<u8> differs from From<&T>", $name)); } }
+            }}; }
+            for (name, enc, _) in point_containers(&s) {
+                match name {
+                    "PublicKey" => forms!(PublicKey<C>, name, enc),
+                    "MultiPublicKey" => forms!(MultiPublicKey<C>, name, enc),
+                    "ProofOfPossession" => forms!(ProofOfPossession<C>, name, enc),
+                    "Signature" => forms!(Signature<C>, name, enc),
+                    "AggregateSignature" => forms!(AggregateSignature<C>, name, enc),
+                    "MultiSignature" => forms!(MultiSignature<C>, name, enc),
+                    "ProofCommitment" => forms!(ProofCommitment<C>, name, enc),
+                    "ProofOfKnowledge" => forms!(ProofOfKnowledge<C>, name, enc),
+                    "ProofOfKnowledgeTimestamp" => forms!(ProofOfKnowledgeTimestamp<C>, name, enc),
+                    "SignCryptCiphertext" => forms!(SignCryptCiphertext<C>, name, enc),
+                    "SignCryptDecryptionKey" => forms!(SignCryptDecryptionKey<C>, name, enc),
+                    "TimeCryptCiphertext" => forms!(TimeCryptCiphertext<C>, name, enc),
+                    "ElGamalCiphertext" => forms!(ElGamalCiphertext<C>, name, enc),
+                    _ => forms!(ElGamalProof<C>, name, enc),
+                }
+            }
+            forms!(SecretKey<C>, "SecretKey", Vec::from(&s.sk));
+            forms!(ProofCommitmentSecret<C>, "ProofCommitmentSecret", Vec::from(&ProofCommitmentSecret::<C>(s.sk.0)));
+            forms!(ProofCommitmentChallenge<C>, "ProofCommitmentChallenge", Vec::from(&ProofCommitmentChallenge::<C>(s.sk.0)));
+            forms!(SecretKeyEnum, "SecretKeyEnum", Vec::from(&SecretKeyEnum::G2(SecretKey::<G2>::from_hash(b"enum key"))));
+            let sh = &s.shares[0];
+            forms!(SecretKeyShare<C>, "SecretKeyShare", Vec::from(sh));
+            forms!(PublicKeyShare<C>, "PublicKeyShare", Vec::from(&sh.public_key().ok()?));
+            forms!(SignatureShare<C>, "SignatureShare", Vec::from(&sh.sign(SignatureSchemes::Basic, b"m").ok()?));
             None
         }
         "schemes" => {
